@@ -66,21 +66,32 @@ BlocksTile(st) ==
 
 \* patch units must decode completely, too
 PatchesDecoded(reqs) ==
-  \A i \in DOMAIN reqs : \A j \in DOMAIN reqs[i].patch.units : reqs[i].patch.units[j].k # "bad"
+  \A i \in DOMAIN reqs :
+     /\ \A j \in DOMAIN reqs[i].patch.units : reqs[i].patch.units[j].k # "bad"
+     \* patches that also add contents to other sections are not modelled by Edit yet
+     /\ reqs[i].patch.nsec <= 1
 
 \* The API forbids inserting into zero-sized blocks, and an insertion that is
 \* anchored in a block which the same batch deletes entirely has no position
 \* in the original listing that survives (see DESIGN 5/C01).
+\* (the repository's own test_conflicting_insertion_replacement pins the refusal of
+\* an insertion into a block that the same batch replaces entirely)
+WholeCovered(pre, reqs, u) ==
+  \E i \in DOMAIN reqs : /\ reqs[i].op \in {"del", "rep"} /\ reqs[i].u = u /\ reqs[i].off = 0
+                          /\ reqs[i].len = BlockByU(pre, u).n /\ reqs[i].len > 0
 NoInsertIntoDeletedOrEmpty(pre, reqs) ==
   \A i \in DOMAIN reqs :
      reqs[i].op \in {"ins", "rep"} =>
         /\ BlockByU(pre, reqs[i].u).n > 0
-        /\ (reqs[i].op = "ins" => ~WholeDeleted(pre, reqs, reqs[i].u))
+        /\ (reqs[i].op = "ins" => ~WholeCovered(pre, reqs, reqs[i].u))
 
 NoAlignment(st) ==
   \A i \in DOMAIN st.secs : \A j \in DOMAIN st.secs[i].blocks : st.secs[i].blocks[j].al \in {0, 1}
 
+\* positions are defined through addresses: every byte interval needs one
+AllAddressed(st) == \A i \in DOMAIN st.secs : st.secs[i].noaddr = 0
 DomG1(t) ==
+  /\ AllAddressed(t.pre)
   /\ \A i \in DOMAIN t.reqs : ReqWellPlaced(t.pre, t.reqs[i])
   /\ NonOverlapping(t.reqs)
   /\ BlocksTile(t.pre)
@@ -110,6 +121,8 @@ C01_Diff(X) ==
 (* C02  symbols                                                            *)
 (***************************************************************************)
 PreSymNames(X) == {X.t.pre.syms[i].n : i \in DOMAIN X.t.pre.syms}
+\* integer-valued symbols are given block referents by gtirb-layout (assign_integral_symbols)
+PreIntSyms(X) == {X.t.pre.syms[i].n : i \in {j \in DOMAIN X.t.pre.syms : X.t.pre.syms[j].k = "int"}}
 
 \* expected facts about the labels of the edited listing
 LabelFacts(X, nm, fromPatch) ==
@@ -134,7 +147,7 @@ ExpProxied(X) ==
 
 ObsOrigSymFacts(X) ==
   {[n |-> X.t.post.syms[i].n, s |-> X.t.post.syms[i].s, p |-> X.t.post.syms[i].p] :
-      i \in {j \in DOMAIN X.t.post.syms : X.t.post.syms[j].k = "blk" /\ X.t.post.syms[j].n \in PreSymNames(X)}}
+      i \in {j \in DOMAIN X.t.post.syms : X.t.post.syms[j].k = "blk" /\ X.t.post.syms[j].n \in PreSymNames(X) \ PreIntSyms(X)}}
 ObsPatchSymFacts(X) ==
   {[n |-> X.t.post.syms[i].b, s |-> X.t.post.syms[i].s, p |-> X.t.post.syms[i].p] :
       i \in {j \in DOMAIN X.t.post.syms : X.t.post.syms[j].k = "blk" /\ X.t.post.syms[j].n \notin PreSymNames(X)}}
